@@ -79,8 +79,12 @@ Definition iter_idx_list (n : nat) (to_right : bool) : list Z :=
    sweeping to the left.  (mps.bond_dims has n+1 entries, bond b sits between sites b-1 and b.) *)
 Definition cut_bond (idx : Z) (to_right : bool) : Z := if to_right then (idx + 1)%Z else idx.
 
-Definition set_nth {A : Type} (i : nat) (x : A) (l : list A) : list A :=
-  if i <? length l then firstn i l ++ x :: skipn (S i) l else l.
+Fixpoint set_nth {A : Type} (i : nat) (x : A) (l : list A) : list A :=
+  match l, i with
+  | [], _ => []
+  | _ :: t, O => x :: t
+  | y :: t, S j => y :: set_nth j x t
+  end.
 
 (* one compress() sweep: spectrum idx = the singular values svd_qn returns at that step (arbitrary),
    mt = the kept-count rule (sigma, idx, left) *)
